@@ -52,6 +52,21 @@ type lField struct {
 	Embedded bool   `json:"embedded,omitempty"`
 	Val      fv.FV  `json:"val"`
 	Tag      string `json:"tag,omitempty"` // u8fixed: the literal after value: ("32", "0x20", "0X2A", "0xfe")
+	// OffFmt: how the (decimal) offset is written in the tag - 0 "8", 1 "08", 2 "008", 3 " 8" (blank after the colon): the tag
+	// grammar is offset:\s*[0-9]+ and the digits are decimal however many leading zeros they carry
+	OffFmt uint8 `json:"offset_format,omitempty"`
+}
+
+func (f lField) offText() string {
+	switch f.OffFmt % 4 {
+	case 1:
+		return fmt.Sprintf("%02d", f.Off)
+	case 2:
+		return fmt.Sprintf("%03d", f.Off)
+	case 3:
+		return fmt.Sprintf(" %d", f.Off)
+	}
+	return fmt.Sprintf("%d", f.Off)
 }
 
 type layoutCase struct {
@@ -125,9 +140,9 @@ func (c layoutCase) build() (reflect.Type, bool) {
 	embAt := -1
 	for i, f := range c.Fields {
 		k := kindByName(f.Kind)
-		tag := fmt.Sprintf(`uhppote:"offset:%d"`, f.Off)
+		tag := fmt.Sprintf(`uhppote:"offset:%s"`, f.offText())
 		if f.Kind == "u8fixed" {
-			tag = fmt.Sprintf(`uhppote:"offset:%d, value:%s"`, f.Off, f.Tag)
+			tag = fmt.Sprintf(`uhppote:"offset:%s, value:%s"`, f.offText(), f.Tag)
 		}
 		sf := reflect.StructField{Name: c.fieldName(i), Type: k.typ, Tag: reflect.StructTag(tag)}
 		if f.Embedded {
@@ -182,7 +197,7 @@ func describe(c layoutCase) string {
 		fmt.Fprintf(&sb, " som value:%s", c.SOM)
 	}
 	for _, f := range c.Fields {
-		fmt.Fprintf(&sb, "; %s@%d", f.Kind, f.Off)
+		fmt.Fprintf(&sb, "; %s@%q", f.Kind, f.offText())
 		if f.Tag != "" {
 			fmt.Fprintf(&sb, " value:%s", f.Tag)
 		}
@@ -504,6 +519,9 @@ func genLayout(t *rapid.T) layoutCase {
 			used[j] = true
 		}
 		f := lField{Kind: k.name, Off: off, Embedded: embed && rapid.Bool().Draw(t, "embedded")}
+		if rapid.IntRange(0, 3).Draw(t, "offset.form") == 0 {
+			f.OffFmt = uint8(rapid.IntRange(1, 3).Draw(t, "offset.fmt"))
+		}
 		if k.name == "u8fixed" {
 			x := rapid.IntRange(0, 255).Draw(t, "fixed")
 			f.Tag = []string{fmt.Sprintf("%d", x), fmt.Sprintf("0x%02x", x), fmt.Sprintf("0X%02X", x), fmt.Sprintf("0x%02X", x)}[rapid.IntRange(0, 3).Draw(t, "fixed.form")]
@@ -568,6 +586,7 @@ func sweepSingle(yield func(layoutCase) bool) {
 					}
 					f := s
 					f.Kind, f.Off, f.Embedded = k.name, off, emb
+					f.OffFmt = uint8((off + vi) % 4)
 					code := byte(0x5f + off)
 					c := layoutCase{Code: code, CodeTag: []string{fmt.Sprintf("0x%02x", code), fmt.Sprintf("%d", code), fmt.Sprintf("0X%02X", code)}[off%3], Fields: []lField{f}, CodeEmb: emb && off%2 == 0}
 					if !yield(c) {
